@@ -35,13 +35,13 @@
    API
      monad      out (out_res, out_st, out_orc), M, ret, bindM (notations letM x := m in k, doM m in k), lift, get, put, modify, catch
      oracle     oracle (mkOracle), askF / askA / askS / askT / askSel, fake_addr, fake_value
-     functions  min_fee_pub, add_output, fee_for_output, get_input_shortage, will_adding_asset_make_output_overflow,
+     functions  min_fee_pub, output_admissible, output_acceptable, add_output, fee_for_output, get_input_shortage, will_adding_asset_make_output_overflow,
                 pack_policy_assets, pack_policies, pack_nfts_for_change, change_outputs_loop, change_while_loop,
                 burn_extra, check_fee_after_change, add_change (address id, datum/script id, fuel), sort_unused, retry_loop,
                 add_inputs_from_and_change, validate_fee, build, build_tx
      fuel       add_change's `while` loop takes [fuel] iterations at most and returns OutOfFuel beyond
 *)
-From CSL Require Import Base.Prelude Base.U64 Num.Value Deposits.Deposits Builder.Totals.
+From CSL Require Import Base.Prelude Base.U64 Num.Value Num.ValueNorm Deposits.Deposits Builder.Totals.
 Local Open Scope N_scope.
 
 (* address id of MinOutputAdaCalculator::create_fake_output, and its amount *)
@@ -146,8 +146,14 @@ Section Change.
       letM min_ada := askA x in
       if coin (o_amount x) <? min_ada then lift Err else ret tt.
 
+  (* add_output first refuses a value with a zero quantity or an asset-less policy (since the /repo fix "the builder drops
+     zero quantities and asset-less policies of the amounts it is given"); check_output_limits (the re-check after the
+     top-up) has only the two admission tests *)
+  Definition output_acceptable (x : output) : M unit :=
+    if value_has_empty_entries (o_amount x) then lift Err else output_admissible x.
+
   Definition add_output (x : output) : M unit :=
-    doM output_admissible x in
+    doM output_acceptable x in
     modify (fun s => set_s_outputs (s_outputs s ++ [x]) s).
 
   (* fee_for_output works on a copy of the builder: the state is left untouched *)
@@ -156,7 +162,7 @@ Section Change.
     let c := set_final_fee 0 s in
     letM fee_before := askF c in
     let aligned_before := get_new_fee (s_fee_request s) fee_before in
-    doM output_admissible x in
+    doM output_acceptable x in
     letM fee_after := askF (set_s_outputs (s_outputs c ++ [x]) c) in
     let aligned_after := get_new_fee (s_fee_request s) fee_after in
     lift (checked_sub aligned_after aligned_before).
@@ -383,7 +389,8 @@ Section Change.
   (* add_inputs_from_and_change *)
 
   Definition add_inputs (l : list (N * value)) : M unit :=
-    modify (fun s => set_s_inputs (fold_left (fun m e => inputs_insert (fst e) (snd e) m) l (s_inputs s)) s).
+    (* add_regular_utxo -> push_input: the amount is stored without zero quantities and asset-less policies *)
+    modify (fun s => set_s_inputs (fold_left (fun m e => inputs_insert (fst e) (value_without_empty_entries (snd e)) m) l (s_inputs s)) s).
 
   Definition policies_count (e : N * value) : N :=
     match multiasset_of (snd e) with Some ma => ma_len ma | None => 0 end.
